@@ -108,7 +108,14 @@ def gen_case(ch, tier):
         tag = None
     neg = ch.p(0.15)
     kind = 'empty' if ch.p(0.12) else 'contains'
-    return {'tree': recipe, 'pseudo': pseudo, 'tag': tag, 'neg': neg, 'kind': kind,
+    chain = []
+    if kind == 'contains' and ch.p(0.3):
+        for _ in range(ch.i(1, 2)):
+            el2 = ch.pick(els)
+            full2 = text_of(ctx, el2) or ''
+            v = full2[:ch.i(0, min(4, len(full2)))] if ch.p(0.6) else ch.pick(TEXTS)
+            chain.append({'p': 'contains', 'own': ch.p(0.5), 'vals': [v] + ([ch.pick(TEXTS)] if ch.p(0.3) else [])})
+    return {'tree': recipe, 'pseudo': pseudo, 'tag': tag, 'neg': neg, 'kind': kind, 'chain': chain,
             'spell': [ch.i(0, 255) for _ in range(48)]}, doc
 
 
@@ -116,6 +123,8 @@ def build_selector(case):
     p = case['pseudo'] if case['kind'] == 'contains' else {'p': 'empty'}
     r = respell.Respeller(choose.Chooser(bytes(case['spell'])), 'all', 0.5, pseudo_name_escapes=False)
     inner = r.pseudo(p)
+    for extra in case.get('chain', []):
+        inner += r.pseudo(extra)
     if case['neg']:
         inner = ':not(' + inner + ')'
     return (S.ident(case['tag']) if case['tag'] else '') + inner, p
@@ -153,7 +162,9 @@ def evaluate(case, doc=None):
             if r is None:
                 skipped += 1
                 continue
-            exp = r != case['neg']
+            for extra in case.get('chain', []):
+                r = r and ref_contains(ctx, e, extra)
+            exp = bool(r) != case['neg']
         info['n'] += exp
         if (id(e) in gotset) != exp:
             kinds = sorted({type(c).__name__ for c in e.contents if not isinstance(c, bs4.Tag)})
@@ -194,6 +205,8 @@ def shard(ctx):
         col.count()
         col.classify('kind:' + case['tree']['kind'], 'pseudo:' + ('empty' if case['kind'] == 'empty' else
                                                                   'own' if case['pseudo']['own'] else 'contains'))
+        if case.get('chain'):
+            col.classify('chained-text-pseudo-classes')
         if info:
             if info['n']:
                 col.classify('nonempty')
